@@ -203,6 +203,13 @@ def typed_args(name, argname):
     return []
 
 
+def cls_argname(name):
+    from fickling import fickle
+
+    cls = fickle.OPCODES_BY_NAME[name]
+    return cls.info.arg.name if cls.info.arg else None
+
+
 def expected_arg(name, arg):
     """what genops should read back for a directly constructed opcode"""
     if isinstance(arg, bytes) and name in ("SHORT_BINUNICODE", "BINUNICODE", "BINUNICODE8", "UNICODE"):
@@ -284,6 +291,23 @@ def check_construction(label, name, arg, thunk):
                           "after the Pickled holding it has been interpreted"),
             "encoded",
         )
+    # ... nor of what it encoded to before its argument was changed
+    others = [a for a in typed_args(name, cls_argname(name)) if a is not None and not same_kind_equal(a, arg)] if arg is not None else []
+    if others and label == "direct":
+        try:
+            op3 = thunk()
+            op3.data
+            op3.arg = others[0]
+            after = bytes(op3.data)
+            fresh = bytes(type(op3)(others[0]).data)
+        except Exception:  # noqa: BLE001
+            after = fresh = None
+        if after != fresh:
+            return (
+                Failure(case, f"{name}({_r(arg)}) was serialised, then its argument was set to {_r(others[0])}: it now "
+                              f"encodes to {_r(after)} but a new {name}({_r(others[0])}) encodes to {_r(fresh)}"),
+                "encoded",
+            )
     rinfo, rarg, _ = first
     want = expected_arg(name, arg)
     if label in ("Get.create", "Put") or name in ("GET", "PUT"):
@@ -377,7 +401,8 @@ def _value_strategy():
     import verif_objs
 
     scal = st.one_of(values.scalars(), values.scalars(), values.scalars(), st.sampled_from(verif_objs.SUBCLASS_VALUES),
-                     st.sampled_from(["\ud800", "a\udfffb", "\udc80x", "\ud83d", "\ude00\ud83d"]))  # fmt: skip
+                     st.sampled_from(["\ud800", "a\udfffb", "\udc80x", "\ud83d", "\ude00\ud83d"]),
+                     st.sampled_from([bytearray(b"ba"), bytearray(b""), bytearray(b"q" * 300)]))  # fmt: skip
     key = st.one_of(values.texts(6), values.ints(), values.byteses(4), st.just("\udcff"))
     return st.one_of(
         scal,
